@@ -23,6 +23,7 @@ Op grammar (one label per record; observation after `=>`):
   config <capT> <capP> <capR> <hook0|hook1>      => ok          caps: unset|on|off
   ttl <ms>                                         => ok
   change <tools|prompts|resources|templates> <add|replace|remove|noop>  => ok
+  change <set> rm <p|a|d>+                         => ok          (ONE Remove*(names…) call: p a registered feature, a a never-registered name, d a name named before in the call)
   advance <ms>                                     => hook1: `fired <kinds…>` ; hook0: ok (the harness then emits the cbrun records itself)
   cbrun <kind>                                     => sent@<t> c<slot>:<method>:<stamp>:<handler>…   | none
   cbrun <kind> step                                => fan open | fan done | none    (the callback takes its snapshot; its fan-out loop is then held before every write)
@@ -63,6 +64,11 @@ def parseFSet : String → Option FSet
 
 def parseEff : String → Option Eff
   | "add" => some .add | "replace" => some .replace | "remove" => some .remove | "noop" => some .noop | _ => none
+
+/-- the names of one `Remove*(names…)` call: `p` a registered feature (not named before in the call), `a` a name
+that was never registered, `d` a name already named in the call (gone when the loop reaches it) -/
+def parseNames (pat : String) : Option (List NameAt) :=
+  pat.toList.mapM (fun c => if c == 'p' then some NameAt.present else if c == 'a' || c == 'd' then some NameAt.absent else none)
 
 def parseMask (m : String) : List Kind :=
   Kind.all.filter (fun k => m.toList.contains ((kindLetter k).toList.getD 0 '?'))
@@ -106,6 +112,7 @@ def parseOp (toks : List String) : Op :=
    | ["config", a, b, c, h] => do some (Op.config (← parseCap a) (← parseCap b) (← parseCap c) (h == "hook1"))
    | ["ttl", n] => n.toNat?.map Op.ttl
    | ["change", f, e] => do some (Op.change (← parseFSet f) (← parseEff e))
+   | ["change", f, "rm", pat] => do some (Op.change (← parseFSet f) (removeEff (← parseNames pat)))
    | ["advance", d] => d.toNat?.map Op.advance
    | ["cbrun", k] => (parseKind k).map Op.cbrun
    | ["cbrun", k, "step"] => (parseKind k).map Op.cbstep
@@ -376,6 +383,7 @@ def clauseText : Clause → String
   | .ackedMissing => "C18: acked_stays_registered: a subscription the server acknowledged, and the client has not ended, is missing from the server's table"
   | .refusedLeft => "C18: refused_listen_leaves_no_subscription: resourceSubscriptions still holds the session for a URI of a subscriptions/listen request that the SubscribeHandler refused (no acknowledgement, no stream): the URIs registered before the refused one were not unsubscribed"
   | .foreignEntry => "C18: acked_stays_registered / refused_listen_leaves_no_subscription: a subscription table holds a 2026-07-28 session under a request id that is not the id of a live, acknowledged listen of that session granted that kind or URI"
+  | .endMixedRemove => "C18: at_least_one_after_burst (Remove* naming several features): a Remove call that named a registered feature together with names that were not registered (or no longer, a repeated name) changed the list, and no list-changed notification sent after it reached this connected, entitled session although every timer has fired and every callback has run — the call did not count as a change (featureSet.remove must report whether ANY named feature was present)"
   | .endMidFan => "C18: at_least_one_after_burst (blocked fan-out) / change_during_fanout_announced: a change was made while a list-changed fan-out of the same kind was in progress — this session had already been written to, a later write of the loop was still blocked — and the change was never announced to the session: no notification sent after the change reached it although every timer has fired and every callback has run"
   | .endSkippedAck => "C18: ack_after_registration / at_least_one_after_burst: the session held the acknowledgement of its list-changed subscription when the callback took its snapshot (the listen handler was held right after the acknowledgement write), the snapshot did not include it, and no later notification reached it"
   | .endF19 => "C18: F19 at_least_one_after_burst: the session's list-changed subscription was dropped when another subscriptions/listen of the same session ended"
